@@ -46,6 +46,7 @@ TOL = 1e-9
 
 
 MISSING = "?model-unavailable"
+SKIPPED = "?model-skipped"
 
 
 def ceval(ck, name, exprs, shard=300):
@@ -62,6 +63,8 @@ def ceval(ck, name, exprs, shard=300):
 def safe(ck, name, fn, *args):
     """Run one stream; a crash inside it is reported and does not stop the other streams."""
     import traceback
+    import time
+    t0 = time.time()
     try:
         return fn(ck, *args)
     except Exception:
@@ -69,6 +72,8 @@ def safe(ck, name, fn, *args):
         ck.violation("C14/harness-crash/%s" % name, "stream %s could not complete: %s" % (name, tb.splitlines()[-1]),
                      {"kind": "crash", "stream": name, "traceback": tb}, found_input=False)
         return None
+    finally:
+        ck.notes.setdefault("stream_seconds", {})[name] = round(time.time() - t0, 1)
 
 
 # ------------------------------------------------------------------------------------------ helpers
@@ -756,7 +761,18 @@ def stream_pipeline(ck, n_cases):
         replay = {"kind": "pipeline", "n": n, "rows": [[list(r), [c.real, c.imag]] for r, c in rows], "n_electrons": ne}
         cases.append((n, rows, psi, replay))
         impls.append(res)
-        exprs.append("run_pipeline gen_c_calc gen_cull %s 8%%positive %s %s" % (coq_nat(n), coq_rows_zz(rows, 8), coq_str(bits_str(psi))))
+        # cost of the exact model ~ (2^k)^2 * terms products over Q(zeta_32): the largest cases are compared with the
+        # independent symbolic product instead (reference_taper) and still go through all oracles
+        work = (4 ** len(res["q"]) if "err" not in res else 1) * len(rows)
+        heavy = work > (3000 if ck.tier == "quick" else 12000)
+        exprs.append('"%s"' % SKIPPED if heavy else
+                     "run_pipeline gen_c_calc gen_cull %s 8%%positive %s %s" % (coq_nat(n), coq_rows_zz(rows, 8), coq_str(bits_str(psi))))
+        if heavy and "err" not in res and len(set(res["q"])) == len(res["q"]):
+            ref = reference_taper(rows, res["U"], res["q"], res["signs"])
+            if not dict_close(ref, res["T"], 1e-8):
+                ck.violation("C14/QubitTapering/differs-from-symbolic-product", "tapered operator %s differs from the term-by-term "
+                             "U H U with substituted eigenvalues %s (operator %s)" % (fmt_dict(res["T"])[:300], fmt_dict(ref)[:300],
+                                                                                   [(codes_str(r), c.real) for r, c in rows]), replay)
         check_spectrum(ck, rows, n, res, "QubitTapering", replay)
         if "err" not in res and ck.rng.random() < 0.7:
             history_calls(ck, rows, n, res, run_tapering_impl(rows, n, ne, 0, "JW", False), replay, "QubitTapering")
@@ -808,7 +824,10 @@ def stream_pipeline(ck, n_cases):
                         {"kernel": [codes_str(k) for k in res["kernel"]], "q": res["q"], "tapered_terms": len(res["T"])},
                         "model": m[:300]},
                 tags=["removed=%d" % removed if "err" not in res else res["err"], "n=%d" % n])
-        if m == MISSING:
+        if m == SKIPPED:
+            ck.stream("taper-pipeline")["dist"]["model-skipped(size)-symbolic-reference-used"] = \
+                ck.stream("taper-pipeline")["dist"].get("model-skipped(size)-symbolic-reference-used", 0) + 1
+        if m in (MISSING, SKIPPED):
             continue
         if "err" in res:
             if not (m.startswith("Err:") and m == res["err"]):
@@ -981,6 +1000,32 @@ def gen_trim_circuit(rng):
         specs.append({"name": "H", "target": [ent[0]], "control": None, "k": None, "var": False})
         specs.append({"name": "T", "target": [ent[0]], "control": None, "k": None, "var": False})
         specs.append({"name": "H", "target": [ent[0]], "control": None, "k": None, "var": False})
+    # control-only qubits: never a target, only ever a control (single and multi-controlled gates); they stay in |0>,
+    # the controlled gate belongs to the component of its target, so the qubit is part of a kept component
+    idle = [q for q in range(n) if roles[q] == "idle"]
+    if idle and rng.random() < 0.45:
+        ctrls = rng.sample(idle, min(len(idle), rng.choice([1, 1, 2])))
+        for c in ctrls:
+            roles[c] = "control-only"
+        for c in ctrls:
+            for _ in range(rng.choice([1, 1, 2])):
+                tgts = [q for q in range(n) if roles[q] != "control-only"]
+                if not tgts:
+                    break
+                t = rng.choice(tgts)
+                name = rng.choice(["CNOT", "CNOT", "CZ", "CRY", "CRZ", "CH", "CRX"])
+                control = [c]
+                r = rng.random()
+                extra = [q for q in range(n) if q not in (c, t)]
+                if extra and r < 0.35:
+                    control.append(rng.choice(extra))             # multi-controlled, second control of any role
+                    if roles[control[-1]] not in ("control-only", "entangled"):
+                        roles[control[-1]] = "entangled" if roles[control[-1]] != "idle" else "control-only"
+                if roles[t] != "entangled":
+                    roles[t] = "entangled"
+                spec = {"name": name, "target": [t], "control": control, "k": LC.rand_k(rng) if name in ("CRY", "CRZ", "CRX") else None,
+                        "var": False}
+                specs.insert(rng.randint(0, len(specs)), spec)
     nq = n if rng.random() < 0.5 else None
     return specs, nq, roles
 
@@ -1018,7 +1063,7 @@ def np_simulate(gates, n):
     for g in gates:
         name, t = g.name, g.target[0]
         ctrl = list(g.control) if g.control else []
-        base = {"CNOT": "X", "CX": "X", "CZ": "Z", "CY": "Y"}.get(name, name)
+        base = {"CNOT": "X", "CX": "X"}.get(name, name[1:] if (name.startswith("C") and ctrl) else name)
         th = None if isinstance(g.parameter, str) else float(g.parameter)
         u = np_gate(base, th)
         mask = np.ones(2 ** n, dtype=bool)
@@ -1076,7 +1121,8 @@ def stream_trim(ck, n_cases):
     from tangelo.toolboxes.operators.trim_trivial_qubits import trim_trivial_circuit, trim_trivial_operator, trim_trivial_qubits
     ck.stream("trim", "trim_trivial_circuit / trim_trivial_operator / trim_trivial_qubits on circuits of 2-6 qubits whose "
               "qubits are idle, phase-only (Z, RZ), flipped (X, RX(odd pi)), two-gate combinations, near misses (RX(pi/2), "
-              "H, Y, RY(pi), three gates, ...) or entangled (CNOT/CZ chain), with and without a fixed register size, and "
+              "H, Y, RY(pi), three gates, ...), entangled (CNOT/CZ chain) or CONTROL-ONLY (never a target, only the control of a single / "
+              "multi-controlled CNOT, CZ, CH, CRX, CRY, CRZ, at any position), with and without a fixed register size, and "
               "random operators with coefficients k/16; exact comparison with Trim.trim_trivial_circuit / trim_operator; "
               "oracle: expectation value before/after (own numpy statevector simulation, 1e-9); non-trivial = >= 1 "
               "trimmed qubit")
@@ -1116,6 +1162,8 @@ def stream_trim(ck, n_cases):
                 e_after = np_expect(top, np_simulate(list(tc), w2), w2) if top.terms else 0.0
                 if abs(e_before - e_after) > TOL:
                     kinds = sorted(set(roles[q] for q in ts))
+                    if "control-only" in kinds:
+                        kinds = ["control-only"]          # a qubit that is only ever a control was treated as idle
                     ck.violation("C14/trim_trivial_qubits/expectation-changed/" + "+".join(kinds),
                                  "expectation value %.10g%+.10gj before, %.10g%+.10gj after trimming qubits %s of circuit %s"
                                  % (e_before.real, e_before.imag, complex(e_after).real, complex(e_after).imag, ts,
@@ -1561,6 +1609,24 @@ def replay(data):
             return 1
         print("no longer fails")
         return 0
+    if kind == "trim" and "op" in r:
+        from tangelo.linq import Circuit
+        from tangelo.toolboxes.operators import QubitOperator
+        from tangelo.toolboxes.operators.trim_trivial_qubits import trim_trivial_qubits, trim_trivial_circuit
+        circ = Circuit([LC.make_gate(sp) for sp in r["gates"]], n_qubits=r["n_qubits"])
+        op = QubitOperator()
+        for t, c in r["op"]:
+            op += QubitOperator(tuple((int(q), p) for q, p in t), complex(*c))
+        print("circuit:", LC.show_gates_impl(circ._gates)[0], " trim_states:", trim_trivial_circuit(circ)[1])
+        top, tc = trim_trivial_qubits(op, circ)
+        e0 = np_expect(op, np_simulate(list(circ), circ.width), circ.width)
+        try:
+            e1 = np_expect(top, np_simulate(list(tc), tc.width), tc.width) if top.terms else 0.0
+        except Exception as e:
+            print("trimmed operator does not fit the trimmed circuit:", repr(e))
+            return 1
+        print("expectation before", e0, "after", e1)
+        return 1 if abs(e0 - e1) > TOL else 0
     if kind == "trim_float":
         from tangelo.linq import Gate, Circuit
         from tangelo.toolboxes.operators import QubitOperator
